@@ -291,7 +291,6 @@ class FaultInterp {
     if (sc.op == 24 && lim < 3) return false;
     if (!ET<E>::copyable) return false;
     long pos = sc.pos % (s0 + 1);
-    if (sc.op == 23 && T::is_fcv) return false;
     char desc[256];
     snprintf(desc, sizeof desc, "%s size=%ld pos=%ld cnt=%ld kind=%s capmode=%s storage=%s", op_name(sc.op), s0, pos, cnt, range_kind_name(sc.kind),
              sc.capmode ? "tight" : "spare", sc.storage ? "heap" : "inline-if-possible");
